@@ -131,7 +131,8 @@ func (p Protocol) String() string {
 
 // Supported returns true if the protocol is a supported Minecraft Java edition version.
 func (p Protocol) Supported() bool {
-	return !p.Unknown()
+	v := p.Version()
+	return v != Unknown && v != Legacy
 }
 
 func (p Protocol) Legacy() bool {
